@@ -1023,7 +1023,7 @@ class Interp:
         m = re.match(r"std::option::Option::<std::option::Option<T>>::flatten$", name)
         if m and isinstance(args[0], Agg) and args[0].variant in ("Some", "None"):
             return args[0].fields[0] if args[0].variant == "Some" else args[0]
-        m = re.match(r"std::(result::Result::<T, E>|option::Option::<T>)::(map|map_err|map_or|map_or_else|and_then|unwrap_or|unwrap_or_else|ok|ok_or|ok_or_else|is_ok|is_err|is_some|is_none)$", name)
+        m = re.match(r"std::(result::Result::<T, E>|option::Option::<T>)::(map|map_err|map_or|map_or_else|and_then|unwrap_or|unwrap_or_else|ok|ok_or|ok_or_else|is_ok|is_err|is_some|is_none|inspect|inspect_err)$", name)
         if m and args and isinstance(args[0], Agg) and args[0].variant in ("Ok", "Err", "Some", "None"):
             # std docs: the adapters of Result / Option on a value whose variant is known
             r, fn = args[0], m.group(2)
@@ -1050,6 +1050,12 @@ class Interp:
                 return r.fields[0] if good else args[1]
             if fn == "unwrap_or_else":
                 return r.fields[0] if good else self.apply_callable(args[1], r.fields[:1], fr, t, depth)
+            if fn in ("inspect", "inspect_err"):
+                if good == (fn == "inspect") and r.fields:
+                    holder = Frame({"path": "<inspected>", "locals": []}, {})
+                    holder.locals[0] = r.fields[0]
+                    self.apply_callable(args[1], [Ref(holder, 0, [])], fr, t, depth)
+                return r
             if fn == "map_or":
                 return self.apply_callable(args[2], [r.fields[0]], fr, t, depth) if good else args[1]
             if fn == "map_or_else":
